@@ -23,6 +23,7 @@ import (
 	"sync"
 	"sync/atomic"
 	"time"
+	"unicode/utf8"
 )
 
 var (
@@ -406,6 +407,10 @@ func (h *Handshake) Read(reader io.Reader) error {
 	}
 	if _, err := asn1.Unmarshal(buff, h); err != nil {
 		return fmt.Errorf("failed unmarshaling error: %v", err)
+	}
+	// Ensure we can encode what we decoded (Bytes() is used to verify the signature)
+	if !utf8.ValidString(h.Domain) {
+		return fmt.Errorf("domain is not a valid UTF-8 string")
 	}
 	return nil
 }
